@@ -24,7 +24,7 @@ def emb (s : BState) : World := { a := s }
 theorem fail_eq (w : World) (me : Bool) (e : String) : fail w me e = w.upd me (fun s => { s with err := some e }) := rfl
 def compF (c : Option String) (s : BState) : BState :=
   match c with
-  | some t => { s with comps := s.comps ++ [t] }
+  | some t => if s.comps.contains t then s else { s with comps := s.comps ++ [t] }
   | none => s
 theorem addComp_eq (w : World) (me : Bool) (c : Option String) : addComp w me c = w.upd me (compF c) := by
   cases c <;> simp [addComp, compF, World.upd]
